@@ -372,12 +372,19 @@ def wide_op(t, rng):
     return d
 
 
-def run_wide_histories(chk: core.Check, n_hist: int):
+def run_wide_histories(chk: core.Check, n_hist: int, extra=None):
     rng = chk.rng
+    extra = extra or globals()["extra"]
     for hno in range(n_hist):
-        cols, rows = T.gen_rle(rng)
-        t = T.table_from_rle(cols, rows)
-        case0 = {"cols": cols, "rows": rows, "how": "xml"}
+        if rng.random() < 0.3:
+            # merged cells the way office applications store them (covered cells as repeated runs, styled or not)
+            t, case0 = T.gen_merged_table(rng)
+            chk.count("wide_initial", "office-style merged cells")
+        else:
+            cols, rows = T.gen_rle(rng)
+            t = T.table_from_rle(cols, rows)
+            case0 = {"cols": cols, "rows": rows, "how": "xml"}
+            chk.count("wide_initial", "run-length encoding")
         done = []
         for _ in range(rng.randint(2, 7)):
             for _r in range(rng.choice([0, 1, 2, 3])):
